@@ -133,9 +133,26 @@ def unb_job():
                harness=H_UNB, enforce=False, loop_contracts=True, stubs=('opensmt::FastRational::isZero', 'opensmt::isNegative', 'FastRational__op_minus__void', 'FastRational__ctor__FastRational_R', 'FastRational__ctor__word'),
                opaque=('opensmt::Simplex', 'opensmt::LRAModel', 'opensmt::Tableau', 'opensmt::LABoundStore'), min_obligations=5, timeout=1200, object_bits=12,
                proves='for a row of ANY length: the explanation entry of every row term is a bound of that variable with coefficient |a| > 0 and the bound kind that cancels it (machine-word coefficients)')
+H_SE_UNB = '''void harness(void) {
+  h_n = nondet_int(); __CPROVER_assume(h_n >= 0 && h_n <= 1000000000);
+  g_k = nondet_int(); __CPROVER_assume(g_k >= 0 && g_k < h_n);
+  h_cell.boundref.x = nondet_u32(); r_make(&h_cell.coeff, &h_q[0]);
+  g_lits = nondet_int(); g_coeffs = nondet_int(); __CPROVER_assume(g_lits >= 0 && g_coeffs >= 0);   /* the previous conflict's explanation is still stored */
+  x_std_vector_Simplex__ExplTerm in; in.sz = 0; in.live = 1;
+  LASolver__storeExplanation((struct LASolver *)0, &in);
+  __CPROVER_assert(g_lits == h_n && g_coeffs == h_n, "literals and coefficients both have exactly one entry per Simplex explanation entry, for an explanation of any length");
+  if (h_n > 0) __CPROVER_assert(CELL_STORED, "an arbitrary entry: the literal is the literal of that bound and the coefficient is that bound's coefficient");
+  OSMT_REACH("return");
+}
+'''
+def se_unb_job():
+    return Job('storeExplanation.unbounded.R', 'src/tsolvers/lasolver/LASolver.cc', 'opensmt::LASolver::storeExplanation', tier='R', header='contracts/C26/farkas.h', pre_includes=('stubs/gmp_types.h', 'stubs/std_types.h', 'contracts/C26/types.h'),
+               harness=H_SE_UNB, enforce=False, loop_contracts=True, aux_tu=C15.TU, stubs=C15.POOL_STUBS + SE_STUBS, opaque=('opensmt::LASolver', 'opensmt::TSolver', 'opensmt::Simplex', 'opensmt::LRAModel', 'opensmt::Tableau', 'opensmt::LABoundStore'),
+               defines=('C26_STORE_UNB', 'C26_R'), min_obligations=5, timeout=1200, object_bits=12,
+               proves='for an explanation of ANY length: literals and coefficients are stored entry by entry')
 def jobs(tier):
     return [unb_job(), expl_job(4)] + ([expl_job(5)] if tier == 'thorough' else []) + [
-            piv_job('findNonBasicForPivotByBland', 'opensmt::Simplex::findNonBasicForPivotByBland'), piv_job('findNonBasicForPivotByHeuristic', 'opensmt::Simplex::findNonBasicForPivotByHeuristic'), ab_job(), se_job()]
+            piv_job('findNonBasicForPivotByBland', 'opensmt::Simplex::findNonBasicForPivotByBland'), piv_job('findNonBasicForPivotByHeuristic', 'opensmt::Simplex::findNonBasicForPivotByHeuristic'), ab_job(), se_job(), se_unb_job()]
 def info(tier, results):
     return {'level': 'proof', 'trusted_base': ['clang 14 AST', 'osmt2c lowering', 'CBMC 6.11 (dfcc loop contracts)'],
             'assumptions': ['in the unbounded job FastRational::isZero / isNegative / unary minus / copy on coefficients are by contract and coefficients are machine-word rationals other than INT_MIN (the GMP path is decided by the bounded job)', 'the tableau row of a basic variable x is the equation x = sum a_k*y_k over pairwise different non-basic variables with a_k != 0 (Tableau/Polynomial invariant, not verified)',
